@@ -23,6 +23,9 @@ EXPLANATION = (
     "lower threshold the turning parabola is measured end to end and the length comes out short). "
     "Not decided: accuracy within "
     "`error`, isometry invariance as a numeric fact."
+    ' R15.3 (Arc.length shortcuts): a returned value that is not computed from the radii and the sweep - the'
+    ' chord, a constant - must be dominated by a test that the sweep is zero: coincident end points with a'
+    ' non-zero sweep are a full turn.'
 )
 TECHNIQUE = (
     "static analysis (no execution): role-based structural rules for additivity/fractions/point(t); closed forms as exact canonical forms; collinear fallback by partial evaluation; NNF of the subdivision stopping test; cache-coherence fixed point over the call graph"
@@ -347,7 +350,7 @@ def closed_forms(ctx):
     # the circle case: under the test |rx - ry| < (small), the result is |r x sweep|
     alg = Alg()
     circ = None
-    for x in al.body:
+    for x in stmts_in(al.body):
         if isinstance(x, ast.Assign):
             try:
                 alg.assign(x)
